@@ -62,6 +62,93 @@ CLAIMED = {
    'large inputs, memory exhaustion below the coded limits. A fault of the static pass alone is reported as exit 2.',
    'TLA+ guard table and abstract stack machine model-checked by TLC over real compiled code; replay under recover(); TLC '
    'validation of recorded per-instruction stack effects'),
+ 'C04': ('DESIGN.md section 3 / C04, 10.5',
+   'TLC explores a strict operator-precedence parser written from the POSIX table alone (spec/Grammar.tla, an explicit shift/reduce '
+   'machine) on the minimally and the fully parenthesised text of every expression tree with <= 2 operators over 45 productions '
+   '(124k-2.3M states) and checks that both texts parse back to the tree. Every tree with <= 2 operators (quick, 37k cases) and <= 3 '
+   'operators plus 48k random trees of <= 6 operators (thorough, 970k cases), in seven contexts (statement, print argument, pattern, '
+   'condition, print > dest, print | cmd, printf), is exported with both texts and parsed by the real parser, whose tree '
+   '(S-expression, grouping skipped) must equal the prescribed one. About 700 corpus expressions as printed by the real printer '
+   'are parsed by the specification in TLC and compared with the real tree.',
+   'Trusted: TLC, the transcription of the table and of the strictness rules, the harness S-expression printer and token renderer. '
+   'The judged language is deliberately strict: forms awks accept only through yacc preferences (2 ^ -x, $-1, a ? b : c = d, '
+   'print B[a > b] ...) are never judged. Operand alphabet and contexts are bounded.',
+   'TLA+ shift/reduce parser from the POSIX table model-checked by TLC; replay of TLC-exported trees on the real parser; TLC '
+   'validation of recorded expressions'),
+ 'C05': ('DESIGN.md section 3 / C05, 10.5',
+   'spec/Values.tla models the AWK value model on exact decimals (digit sequences with exponent, a table of exact big integers up to '
+   '2^64, +-inf, nan): the four tags, two separately specified string-to-number routines (whole-string recogniser and prefix '
+   'automaton), comparison, truth, number->string with %.Ng/f/e round-half-even and exact int64 integers. TLC checks their '
+   'consistency over every string of <= 3/4 symbols of an 18-symbol alphabet in 8 dialects (the three points POSIX leaves open) '
+   'and the operator laws (trichotomy, antisymmetry, <= is not >, != is not ==, numeric/string mode law) over 78x78 value pairs. '
+   'TLC-exported predictions for every string in 12 provenances, every pair under six operators in three syntactic positions, '
+   'and number x CONVFMT/OFMT cases (20k quick / 280k thorough) are replayed by probe programs; observations recorded from '
+   'random longer strings are validated by TLC with the same operators.',
+   'Trusted: TLC, Values.tla (sanity-gated against regexp+strconv), the probe renderer. Decimals of <= 15 digits, the exact-integer '
+   'table and the specials only; NaN comparisons and the spelling of non-finite values are not judged; on forms POSIX leaves open '
+   'only the consistency of the two routines is judged.',
+   'TLA+ value model model-checked by TLC; replay of exported predictions in every provenance; TLC validation of recorded observations'),
+ 'C09': ('DESIGN.md section 3 / C09, 10.5',
+   'spec/Printf.tla models printf/sprintf: the format scanner as a state machine and the C conversions of d i o x X u c s e E f g G '
+   'with the 32 flag sets, literal and * width and precision, %%, and the errors (dangling %, unknown verb, too few arguments), '
+   'plus print/OFMT; TLC checks totality, scanner/renderer round trip, width/justification and verb laws (29k-62k states). 25k '
+   '(quick) / 200k (thorough) directive x argument cases plus multi-directive and error formats are exported and replayed through '
+   'both printf and sprintf, byte-exact including error versus no error; every exported prediction is first compared with glibc '
+   'through a compiled C gate (a disagreement is a spec defect, exit 2). Sequences of sprintf calls recorded in one interpreter '
+   'are validated by TLC (the format cache must be invisible).',
+   'Trusted: TLC, Printf.tla (gated against glibc on every case), the probe renderer. C-undefined flag combinations are judged by '
+   'glibc\'s behaviour; results on inexact values beyond 15 digits, %a, %5%, length modifiers and out-of-range %c are not exported.',
+   'TLA+ printf model model-checked by TLC; replay of exported directive x argument cases; glibc sanity gate; TLC validation of recorded call sequences'),
+ 'C10': ('DESIGN.md section 3 / C10, 10.5',
+   'spec/Builtins.tla specifies substr, index, match (RSTART/RLENGTH), split, sub, gsub, length and int() over byte strings, with '
+   'symbolic numbers (halves, +-1e15, +-1e30, +-inf) and a byte/character mode, as a state machine over (target, RSTART, RLENGTH, '
+   'split array). TLC checks the statement\'s equations on the specification itself as 13 invariants of a byte-mode and a '
+   'character-mode machine run in lock-step, exhaustively for every call of the menu on every string of <= 3-4 characters over '
+   '{a, b, e-acute, FF} and for 2-call histories (41k-576k states). The same histories (204k quick / 1.5M thorough) are exported '
+   'with predicted observables and replayed on the real interpreter in both modes; 280-3,300 random 4-12-call histories on '
+   'subjects of <= 12 characters recorded from the real interpreter are validated by TLC (Trace_Builtins).',
+   'Trusted: TLC, Builtins.tla/Regex.tla (matches sanity-gated against Go regexp on every case), the probe renderer. Replacement '
+   'backslashes other than \\&, NaN, int(inf), index(s,""), the number of pieces of split("") and empty-matching regex separators '
+   'are left open and not judged. substr follows the statement (start below 1 taken as 1).',
+   'TLA+ builtin state machine model-checked by TLC against the statement\'s equations; replay of exported call histories in byte '
+   'and character mode; TLC validation of recorded random call histories'),
+ 'C12': ('DESIGN.md section 3 / C12-C13, 10.5',
+   'spec/IOStreams.tla models one run as a record (flags, custom OpenFile, open streams, file system, stdin, stdout, started '
+   'processes, log of opens) with one action per I/O form of the language. TLC checks exhaustively, over all histories of <= 2 '
+   '(quick) / <= 3 (thorough) actions x 8 flag sets x custom OpenFile on/off, that no process, write-open or read-open occurs under '
+   'the respective flag, that every such attempt ends the run in error, and that every touched file goes through the open '
+   'function (13k-181k states). Every single action (literal and run-time-computed names, printf, "-", /dev/std*), every pair and '
+   'every X;close;Y triple is exported (8k-10k runs) and replayed on the real interpreter with a logging OpenFile, a recording '
+   'shell wrapper and a directory listing; 60-400 random recorded runs are validated by TLC.',
+   'Trusted: TLC, IOStreams.tla, the recording shell/OpenFile wrappers. A go/ast diff of the open/exec call sites of package '
+   'interp against the 8 sites the model knows is a completeness hint (exit 2 on an unknown site), not a proof of absence. Bounded '
+   'to 3 files and 2 commands.',
+   'TLA+ I/O state machine model-checked by TLC; replay of exported histories with recording OpenFile/shell; TLC trace validation'),
+ 'C13': ('DESIGN.md section 3 / C12-C13, 10.5',
+   'On the same IOStreams.tla TLC checks over all histories of <= 2/3 actions (20k-809k states), with the stdout writer failing at '
+   'every modelled offset, that files, commands and stdout receive exactly what was written, in order, once (> truncates once per '
+   'session, >> never, one name = one stream, close reports the status, a failing write fails the run). StdoutShare.tla proves the '
+   'serialised two-writer model and exhibits the lost update for the unserialised one. 19k-50k exported histories (all endings, '
+   'exit, run-time error), every failure offset x plain/bufio writer, and provoked write-level schedules (a gate writer that parks '
+   'the first Write until a second goroutine arrives) are replayed on the real interpreter; 60-400 recorded runs are validated by TLC.',
+   'Trusted: TLC, IOStreams/StdoutShare, `cat` echoing its input, the gate writer (a missed second writer is a missed detection '
+   'only). Process-starting histories are sampled; the order of a running child\'s output relative to the program\'s own later '
+   'writes is left open until close().',
+   'TLA+ I/O state machine model-checked by TLC; replay incl. fault injection at every stdout offset and a provoked write schedule; '
+   'race detector as recording instrument (thorough); TLC trace validation'),
+ 'C20': ('DESIGN.md section 3 / C20, 10.5',
+   'For every program exported by TLC, the real Program.String text must re-parse, denote the tree the specification predicts for '
+   'the source, and print to itself. Exported: expression trees of Grammar.tla in seven contexts with minimal, full and no added '
+   'parentheses; statement derivations of <= 2-3 statements with a rotating menu of 46 stress expressions; 28 program shapes; '
+   'string literals over every byte singly and with hex followers plus multi-byte menus; regex literals of <= 2-3 units; 38 number '
+   'spellings (30k cases quick, 940k thorough) plus 1,190 corpus programs. TLC checks the specification\'s own printers and readers '
+   '(Parse(MinParen(t)) = t, ReadStr(SpellStr(v)) = v, ReadRe(SpellRe(v)) = v) and reads back expressions and literals printed by '
+   'the real printer (2k-3k judged events).',
+   'Trusted: TLC, Grammar/GrammarProg/GrammarLit.tla, the harness S-expression printer. Sources the real parser reads differently '
+   'from the specification are not judged (bounded, under 3 %). Numbers are compared to six digits. Statements have no TLA+ parser '
+   '(they rely on the spec printer plus an injectivity gate).',
+   'TLA+ grammar/literal specification model-checked by TLC; round-trip replay of exported programs and the corpus on the real '
+   'parser and printer; TLC validation of recorded printed expressions and literals'),
  'C06': ('DESIGN.md section 3 / C06',
    'TLC checks exhaustively (all operation histories up to depth 4-5 over a menu of ~60 operation instances) that the lazy '
    'record representation refines the abstract AWK record of spec/Record.tla; every history of <= 3 operations exported by '
@@ -73,12 +160,15 @@ CLAIMED = {
    'TLA+ spec + TLC model checking, replay of TLC-exported behaviours and TLC trace validation of recorded executions'),
 }
 
+# checks that have been verified on the unchanged tree (seeds 1-3) and are therefore claimed
+REGISTERED = {'C01', 'C02', 'C04', 'C06', 'C10', 'C11', 'C18'}
+
 m = {
  'version': 1,
  'setup_cmd': 'cd /verif && ./check --setup',
  'hooks': {'guard': 'verif', 'enable': 'go build -tags verif (the harness module replaces github.com/benhoyt/goawk => /repo, the tag applies to the replaced module)',
            'baseline_off_cmd': 'cd /repo && go test -vet=off -count=1 -json ./...', 'source_commits': ['b0722d5', '8dac178'], 'add_only': True},
- 'engines': [{'name': 'tlc+vreplay', 'path': '/verif/check', 'serves_properties': sorted(CLAIMED),
+ 'engines': [{'name': 'tlc+vreplay', 'path': '/verif/check', 'serves_properties': sorted(REGISTERED),
               'kind_free_text': 'TLA+ specification (spec/*.tla) model-checked by TLC; conformance harness (harness/, Go) replays '
                                 'TLC-exported behaviours on the code built from /repo and records traces that TLC validates'}],
  'checks': [], 'not_applicable': [],
@@ -86,7 +176,7 @@ m = {
 }
 for p in props:
     i = p['id']
-    if i in CLAIMED:
+    if i in CLAIMED and i in REGISTERED:
         ref, text, note, tech = CLAIMED[i]
         m['checks'].append({'property_id': i, 'quick_cmd': f'./check {i} quick', 'thorough_cmd': f'./check {i} thorough',
                             'evidence_file': f'/verif/evidence/{i}.json', 'replay_cmd_template': f'./check {i} --replay {{path}}',
@@ -96,4 +186,4 @@ for p in props:
     else:
         m['not_applicable'].append({'property_id': i, 'reason': 'check not built yet (work in progress; DESIGN.md section 6 gives the build order)'})
 json.dump(m, open(os.path.join(V, 'MANIFEST.json'), 'w'), indent=1)
-print('claimed:', sorted(CLAIMED))
+print('claimed:', sorted(REGISTERED & set(CLAIMED)))
